@@ -169,6 +169,9 @@ def _str(it, fr, a, k):
 
 @builtin("repr")
 def _repr(it, fr, a, k):
+    hook = it.spec.opaque_hooks.get("format")
+    if hook and a and isinstance(a[0], Opaque):
+        hook(it, a[0])
     return SStr(it.ctx.fresh_str("repr"))
 
 
@@ -830,6 +833,13 @@ def _str_endswith(it, v, a, k):
 def _str_concrete(name):
     def fn(it, v, a, k):
         if isinstance(v, str) and all(not isinstance(x, SV) for x in a):
+            from .values import GenObj
+            a = [list(it.iterate(x)) if isinstance(x, GenObj) else x for x in a]
+            a = [x.items if isinstance(x, PyList) else x for x in a]
+            if name == "join" and any(isinstance(e, SStr) for x in a if isinstance(x, list) for e in x):
+                return SStr(it.ctx.fresh_str("join"))
+            if any(not isinstance(e, (str, int, float, bool, type(None))) for x in a if isinstance(x, list) for e in x):
+                raise Unsupported(f"str.{name} over non-concrete elements")
             r = getattr(v, name)(*[x.items if isinstance(x, PyList) else x for x in a], **k)
             if isinstance(r, list):
                 return PyList(r)
